@@ -92,8 +92,9 @@ KEYSETS = [
 """
 
 
-def structural(name, params, pre, ea, eb, equal, op, filled, timeout=60):
-    mode = "ieee" if any(t == "float" for _, t in params) else "real"
+def structural(name, params, pre, ea, eb, equal, op, filled, timeout=60, mode=None):
+    twin = mode is not None
+    mode = mode or ("ieee" if any(t == "float" for _, t in params) else "real")
     fill = """
 a.fill((NAN, NAN, "a", NAN)); b.fill((NAN, NAN, "b", NAN))
 """ if filled else ""
@@ -118,10 +119,50 @@ if r is not None:
     if not jeq(J(b), jb): return "rejected-merge-changed-right-operand"
 """
     return Harness(
-        f"C10/struct/{name}/{op}/{'filled' if filled else 'empty'}", params, pre, body, mode=mode, timeout=timeout,
+        f"C10/struct/{name}/{op}/{'filled' if filled else 'empty'}" + ("/real" if twin else ""), params, pre, body, mode=mode, timeout=timeout,
         setup=SETUP + KEYSETS, tree=f"{ea}  vs  {eb}",
         bounds=f"structural parameters of both operands symbolic ({pre}); states {'hold one NaN record' if filled else 'empty'}",
     )
+
+
+NEAR = {
+    "Bin.low": "H.Bin(2, v, 2e6, qx)",
+    "Bin.high": "H.Bin(2, -8.0, v, qx)",
+    "SparselyBin.binWidth": "H.SparselyBin(v, qx)",
+    "SparselyBin.origin": "H.SparselyBin(1.0, qx, H.Count(), H.Count(), v)",
+    "CentrallyBin.center": "H.CentrallyBin([-8.0, v], qx)",
+    "IrregularlyBin.edge": "H.IrregularlyBin([-8.0, v], qx)",
+    "Stack.threshold": "H.Stack([-8.0, v], qx)",
+    "Bin.low(neg)": "H.Bin(2, -v, 8.0, qx)",
+    "Label>SparselyBin.binWidth": "H.Label(a=H.SparselyBin(v, qx), b=H.SparselyBin(1.0, qx))",
+    "Bin>Bin.high": "H.Bin(2, 0.0, 2.0, qx, H.Bin(2, -8.0, v, qy))",
+}
+
+
+def near(name, expr, timeout=40):
+    """structural parameters that differ by an ulp or by a relative 1e-12 (tolerant comparisons would let them through):
+    base value and neighbour are concrete, chosen by symbolic selectors"""
+    body = f"""
+import math as _m
+base = sel(kb, 0.1, 0.3, 1.0, 1e6 + 0.1, 0.1 + 0.2)
+other = sel(ko, base, _m.nextafter(base, _m.inf), _m.nextafter(base, -_m.inf), base * (1.0 + 1e-12), base + 1e-13, 0.3 / 3 if kb == 0 else base)
+P = lambda v: {expr}
+with NT():
+    a = P(base); b = P(other)
+    ja, jb = J(a), J(b)
+    r1 = raises(lambda: a + b)
+    def _iadd(p, q):
+        p += q
+    r2 = raises(_iadd, P(base), P(other))
+    same = (base == other)
+    unchanged = jeq(J(a), ja) and jeq(J(b), jb)
+if same and (r1 is not None or r2 is not None): return "merge-of-identical-structure-rejected"
+if not same and r1 is None: return "add-accepted-although-parameter-differs-slightly"
+if not same and r2 is None: return "iadd-accepted-although-parameter-differs-slightly"
+if not unchanged: return "rejected-merge-changed-operand"
+"""
+    return Harness(f"C10/near/{{}}".format(name), [("kb", "int"), ("ko", "int")], "0 <= kb <= 4 and 0 <= ko <= 5", body, timeout=timeout,
+                   setup=SETUP, tree=expr, bounds="parameter = one of 5 base values; other operand's parameter = same | +-1 ulp | x(1+1e-12) | +1e-13 | 0.3/3 (concrete, by selectors)")
 
 
 # nested mismatch: parent identical, child differs (type or parameter) one level down
@@ -145,12 +186,12 @@ PARENTS = {
 CHILDREN = ["H.Sum(qy)", "H.Average(qy)", "H.Bin(2, 0.0, 2.0, qy)", "H.Bin(3, 0.0, 2.0, qy)", "H.Minimize(qy)", "H.Count()"]
 
 
-def nested(pname, tmpl, op, what, timeout=60, nchild=6):
+def nested(pname, tmpl, op, what, timeout=60, nchild=6, variant="live"):
     """what = 'accept': the merge is accepted iff the children are identical in structure;
        what = 'unchanged': a rejected merge leaves both operands unchanged."""
     CH = CHILDREN[:nchild]
     mks = ", ".join("(lambda: %s)" % tmpl.format(c=c) for c in CH)
-    setup = SETUP + f"MKS = [{mks}]\n"
+    setup = SETUP + f"MKS = [{mks}]\nTYPES = {[c.split('(')[0] for c in CH]!r}\n"
     if op == "add":
         do = "r = raises(lambda: a + b)"
     else:
@@ -158,9 +199,16 @@ def nested(pname, tmpl, op, what, timeout=60, nchild=6):
 def _iadd(p, q):
     p += q
 r = raises(_iadd, a, b)"""
+    sparse_parent = pname.split(".")[0] in ("SparselyBin", "Categorize") and pname.endswith(".value")
     if what == "accept":
         asserts = """
-if r is None and k1 != k2: return "merge-accepted-although-child-differs"
+differs = (k1 != k2)
+""" + ("""
+# an empty sparse container reloaded from JSON carries only the *type name* of its content: a structural difference
+# below that name cannot be known, so only a different type name must be rejected then
+if (ra and not fa) or (rb and not fb): differs = (TYPES[k1] != TYPES[k2])
+""" if sparse_parent else "") + """
+if r is None and differs: return "merge-accepted-although-child-differs"
 if r is not None and k1 == k2: return "merge-of-identical-structure-rejected:" + str(r)
 """
     else:
@@ -169,13 +217,18 @@ if r is not None:
     if not jeq(J(a), ja): return "rejected-merge-changed-left-operand"
     if not jeq(J(b), jb): return "rejected-merge-changed-right-operand"
 """
+    ra, rb, fa, fb = {"live": (False, False, True, True), "reloaded-left": (True, False, True, True),
+                      "reloaded-right": (False, True, True, True), "reloaded-empty-left": (True, False, False, True),
+                      "empty-right": (False, False, True, False), "both-reloaded": (True, True, True, True)}[variant]
     body = f"""
+ra, rb, fa, fb = {ra}, {rb}, {fa}, {fb}
 mka = MKS[k1]; mkb = MKS[k2]
 with NT():
     a = mka()
     b = mkb()
 d1 = (x1, 0.25, "a", 1.0); d2 = (x2, 0.75, sel(c2, "a", "b"), 1.0)
-a.fill(d1); b.fill(d2)
+if fa: a.fill(d1)
+if fb: b.fill(d2)
 if ra: a = Factory.fromJson(J(a))   # immutable form (no value templates)
 if rb: b = Factory.fromJson(J(b))
 ja, jb = J(a), J(b)
@@ -183,9 +236,9 @@ ja, jb = J(a), J(b)
 {asserts}
 """
     return Harness(
-        f"C10/nested/{pname}/{op}/{what}", [("k1", "int"), ("k2", "int"), ("x1", "float"), ("x2", "float"), ("c2", "int"), ("ra", "bool"), ("rb", "bool")],
+        f"C10/nested/{pname}/{op}/{what}" + ("" if variant == "live" else "/" + variant), [("k1", "int"), ("k2", "int"), ("x1", "float"), ("x2", "float"), ("c2", "int")],
         f"0 <= k1 < {len(CH)} and 0 <= k2 < {len(CH)} and -2.0 <= x1 < 2.0 and -2.0 <= x2 < 2.0 and 0 <= c2 <= 1", body,
-        timeout=timeout, setup=setup, tree=tmpl, bounds=f"child of both operands chosen by symbolic selectors over {CH}; one record each, x symbolic in [-2,2); each operand live or reloaded from JSON (symbolic flags)",
+        timeout=timeout, setup=setup, tree=tmpl, bounds=f"child of both operands chosen by symbolic selectors over {CH}; one record each, x symbolic in [-2,2); operands: " + variant + " (live = filled mutable trees; reloaded = immutable form from JSON; empty = never filled)",
     )
 
 
@@ -198,10 +251,21 @@ def harnesses(tier):
     for name, params, pre, ea, eb, equal in STRUCT:
         for op in ("add", "iadd"):
             out.append(structural(name, params, pre, ea, eb, equal, op, False))
+            if any(t == "float" for _, t in params) and op == "add":
+                # exact-real twin: parameters that differ by an arbitrarily small amount (tolerant comparisons) must still be rejected
+                out.append(structural(name, params, pre, ea, eb, equal, op, False, mode="real"))
             if name != "Bag":  # a NaN record is not a valid Bag key for every range
                 out.append(structural(name, params, pre, ea, eb, equal, op, True))
+    for n, e in NEAR.items():
+        out.append(near(n, e))
     for pname, tmpl in PARENTS.items():
         for op in ("add", "iadd"):
             for what in ("accept", "unchanged"):
                 out.append(nested(pname, tmpl, op, what, timeout=90 if tier == "quick" else 300, nchild=4 if tier == "quick" else 6))
+            sparse = pname.split(".")[0] in ("SparselyBin", "Categorize") and pname.endswith(".value")
+            variants = ["reloaded-left"] + (["reloaded-empty-left", "empty-right"] if sparse else [])
+            if tier == "thorough":
+                variants += ["reloaded-right", "both-reloaded"]
+            for v in variants:
+                out.append(nested(pname, tmpl, op, "accept", timeout=90 if tier == "quick" else 300, nchild=4 if tier == "quick" else 6, variant=v))
     return out
